@@ -19,6 +19,11 @@ var goWitnessCases = map[string]Case{
 	"c02_ottocall_comment":          {Fam: "src", API: "Call", Bytes: []int{47, 47}},
 	"c02_duplicate_labels_4000":     {Fam: "src", API: "Compile", Open: []int{97, 58}, Bytes: []int{59}, Rep: 4000},
 	"c02_gomap_define_no_value":     {Fam: "defp", Route: "defineProperty", Target: "goMapSIKey", Desc: &Desc{W: "true", E: "true", C: "true", V: "absent", G: "absent", S: "absent"}},
+	"c02_gomap_pointer_value_put":   {Fam: "bw", Route: "put", Target: "mapSPNew", Val: "obj"},
+	"c02_goslice_length_negative":   {Fam: "bw", Route: "put", Target: "sliceLength", Val: "neg1"},
+	"c02_goslice_length_1e18":       {Fam: "bw", Route: "putLengthBig", Target: "sliceLength", Val: "true"},
+	"c02_goslice_delete_named":      {Fam: "bw", Route: "delete", Target: "sliceNamed", Val: "zero"},
+	"c02_gostruct_string_utf16":     {Fam: "bw", Route: "put", Target: "structString", Val: "loneSurr"},
 	"c02_json_tojson_fresh":         {Fam: "rec", Form: "jsonToJSONFresh", D: 0, L: 50, Mode: "raw"},
 	"c02_throw_self_throwing":       {Fam: "thr", Entry: "Run", Val: "selfThrower"},
 	"c02_copy_arguments_param":      {Fam: "copy", Setup: "argumentsParam"},
